@@ -3,7 +3,7 @@ import vpl, os
 from concurrent.futures import ThreadPoolExecutor
 
 LEVEL = "proof"
-LIBS = ["RbcModel.vo", "RbcLemmas.vo", "RbcOrder.vo", "RbcAgreement.vo"]
+LIBS = ["RbcModel.vo", "RbcLemmas.vo", "RbcOrder.vo", "RbcStep.vo", "RbcAgreement.vo", "RbcBracha.vo"]
 
 def run(res, tier, seed, replay):
     res.cov["rule"] = ("a record = one API call (Broadcast, Deliver, DeliverFrom, setID, recoverID, unsetID) on a real RBC object inside a "
